@@ -24,7 +24,14 @@ class _Adj:
         self.g, self.how = g, how
 
     def __getitem__(self, n):
-        return getattr(self.g, self.how)(n)
+        # networkx adjacency view of a MultiDiGraph: {neighbour: {edge key: attributes}}
+        out = {}
+        for (a, b, k) in self.g._edges:
+            if self.how == "successors" and a is n:
+                out.setdefault(b, {})[k] = {}
+            elif self.how == "predecessors" and b is n:
+                out.setdefault(a, {})[k] = {}
+        return out
 
 
 class MG(Native):
@@ -208,7 +215,9 @@ class World:
     def register(self, node, is_source):
         nm = self.names[id(node)]
         cls = Obj(None, {"read": Stub(f"read", None), "write": Stub("write", None)}, name=f"StoreClass_{nm}")
-        st = Obj(None, {"__class__": cls}, name=f"store_{nm}")
+        # registered stores are falsy objects (a store that is also an empty container is a legitimate store): "has a store"
+        # must be decided with `is None`
+        st = Obj(None, {"__class__": cls}, name=f"store_{nm}", truthy=False)
         self.stores[id(node)] = st
         self.mapping[node] = Obj(self.C["RegistryValue"], {"value_store": st, "is_source": is_source, "stack_frame": f"regframe-{nm}"})
 
